@@ -8,17 +8,16 @@ CONSTANT AOs = {FALSE}
 CONSTANT MaxPending = 0
 CONSTANT MaxInter = 2
 CONSTANT Acts <- ATrace
-CONSTANT PurgeRace = FALSE
+CONSTANT PurgeRace = TRUE
 CONSTANT RecordReads = TRUE
 CONSTANT HitSteps = TRUE
 SPECIFICATION PSpec
 CONSTRAINT Progress
 POSTCONDITION Accept
 CHECK_DEADLOCK FALSE
+
+INVARIANT PurgedNotServed
+INVARIANT ProbePurgedNotServed
 INVARIANT Asc
 INVARIANT OnePerDoc
 INVARIANT Complete
-INVARIANT ReadCorrect
-INVARIANT PurgedNotServed
-INVARIANT ProbeCorrect
-INVARIANT ProbePurgedNotServed
